@@ -66,7 +66,7 @@ func caseSinks(p *core.Prog) (sinks []core.CaseSink, nFns int) {
 func c08(c *core.Check) {
 	p := c.Prog
 	c.Explain = "Structural necessary conditions of spelling-independence and of dropping bad declarations alone: (R1) text that CSS treats ASCII case-insensitively never reaches a comparison, prefix test or table lookup against a lettered constant without ASCII lowercasing (taint over SSA with return summaries; custom properties recognised by their -- test); (R2) the shorthand tables are complete and inverse, every shorthand has an expander, and an expander only emits longhands its wrapper declares; the four-sides longhands exist; (R3) in the declaration loop a validation error leads to the next declaration only, never to a return or to an append; (R4) expanders and validators receive the declaration's tokens with white space and comments removed; (R5) var() resolution follows custom properties under a visited set. That an expander assigns the right tokens to the right longhand, and var() substitution semantics, are not decided. Also decided: (R5, extended) the set of names being resolved is a stack: insertions are undone when the resolution returns; (R9) comments are skipped wherever white space is; (R10) the unitless-zero rule of the flex shorthand for all 32 assignments."
-	rArgs := c.Rule("R8", "no call passes two same-typed arguments under each other's parameter names (swapped arguments): every pair of arguments named after the callee's parameters is aligned with them", 4)
+	rArgs := c.Rule("R8", "no call passes two same-typed arguments under each other's parameter names (swapped arguments): every pair of arguments named after the callee's parameters is aligned with them", 5)
 	argNameRule(c, rArgs, "css/validation", nil, 6)
 	c.Assume = []string{"String.Value, URL.Value, Hash.Value and Literal.Value are case-sensitive or letter-free by CSS and are not sources", "a raw value parked in a struct field and compared elsewhere is not followed (heap flows)"}
 
@@ -79,7 +79,7 @@ func c08(c *core.Check) {
 	r1.OK(fmt.Sprintf("%d functions of the CSS-interpreting packages scanned", n), "-", fmt.Sprintf("%d raw comparisons", len(sinks)))
 
 	// ---- R2 shorthand tables
-	r2 := c.Rule("R2", "NewShortand and Shortand.String are inverse bijections over the Shortand constants; every constant has a non-nil expander; a function wrapped by genericExpander(names…) only builds namedTokens whose constant name is one of names; the four longhands of each four-sides shorthand exist", 100)
+	r2 := c.Rule("R2", "NewShortand and Shortand.String are inverse bijections over the Shortand constants; every constant has a non-nil expander; a function wrapped by genericExpander(names…) only builds namedTokens whose constant name is one of names; the four longhands of each four-sides shorthand exist", 107)
 	consts := p.ConstsOfType("css/properties", "Shortand")
 	ns := p.Fn("css/properties", "NewShortand")
 	ss := p.Method("css/properties", "Shortand", "String")
@@ -340,7 +340,7 @@ func c08(c *core.Check) {
 	}
 
 	// ---- R4 whitespace / comments removed before validation
-	r4 := c.Rule("R4", "the tokens handed to an expander or to validateNonShorthand in the declaration loop derive from parser.RemoveWhitespace(declaration.Value)", 2)
+	r4 := c.Rule("R4", "the tokens handed to an expander or to validateNonShorthand in the declaration loop derive from parser.RemoveWhitespace(declaration.Value)", 3)
 	if ppd != nil {
 		rw := p.Fn("css/parser", "RemoveWhitespace")
 		fromRW := func(v ssa.Value) bool {
@@ -446,7 +446,7 @@ func c08(c *core.Check) {
 	}
 
 	// ---- R7 custom properties are inherited by copy
-	r7 := c.Rule("R7", "a style's table of custom properties is its own: the `variables` field of a ComputedStyle is only ever assigned a freshly made map (the parent's entries are copied into it), never another style's table, so a custom property declared on an element cannot appear on its parent or siblings", 1)
+	r7 := c.Rule("R7", "a style's table of custom properties is its own: the `variables` field of a ComputedStyle is only ever assigned a freshly made map (the parent's entries are copied into it), never another style's table, so a custom property declared on an element cannot appear on its parent or siblings", 2)
 	nVar := 0
 	for _, fn := range p.FuncsOfPkg("html/tree") {
 		core.Instrs(fn, func(in ssa.Instruction) {
@@ -467,7 +467,7 @@ func c08(c *core.Check) {
 		r7.Unknown("html/tree | variables field", "-", "no assignment of a `variables` field found")
 	}
 
-	r9 := c.Rule("R9", "a comment is white space to the value parsers: every switch and condition of the parsing code that steps over white space steps over comments too (the document pipeline keeps comments as tokens), so that `rgb(0, /**/ 0, 0)` or `!important /**/` mean what they mean without the comment", 6)
+	r9 := c.Rule("R9", "a comment is white space to the value parsers: every switch and condition of the parsing code that steps over white space steps over comments too (the document pipeline keeps comments as tokens), so that `rgb(0, /**/ 0, 0)` or `!important /**/` mean what they mean without the comment", 8)
 	triviaRule(c, r9)
 
 	c08FlexZero(c)
